@@ -49,24 +49,41 @@ static void mk_tree(bool v6, unsigned int lvl0)
 			g_t[i].lchild = &g_t[2 * i + 1];
 		if (2 * i + 2 < TS_N && g_present[2 * i + 2])
 			g_t[i].rchild = &g_t[2 * i + 2];
-		/* trie invariant: children are not shorter than their parent */
-		if (i && g_present[i])
+		/* trie invariant: children are not shorter than their parent, and hang on the side their own bit selects */
+		if (i && g_present[i]) {
+			unsigned int d = 0;
+
+			for (unsigned int j = i; j; j = (j - 1) / 2)
+				d++;
 			ASSUME(g_t[i].len >= g_t[(i - 1) / 2].len);
+			ASSUME(pbit(&g_t[i].prefix, lvl0 + d - 1) == ((i % 2) ? 0u : 1u));
+		}
 	}
 }
 
 /* invariants over whatever hangs below slot 0 now, following the pointers (bounded walk over the slots) */
 static bool reach[TS_N + 1];
 static unsigned int count_payload[TS_N + 1];
-static bool g_len_ok, g_parent_ok, g_stray;
+static bool g_len_ok, g_parent_ok, g_stray, g_side_ok;
+static unsigned int g_depth[TS_N + 1];
+static unsigned int g_lvl0;
+/* bit number k of a prefix (0 = most significant), total for k beyond the width */
+static unsigned int pbit(const struct lrtr_ip_addr *a, unsigned int k)
+{
+	if (a->ver == LRTR_IPV6)
+		return k < 128 ? SPEC_BIT128(a->u.addr6.addr, k < 128 ? k : 0) : 0;
+	return k < 32 ? SPEC_BIT32(a->u.addr4.addr, k < 32 ? k : 0) : 0;
+}
 static void survey(struct trie_node *root)
 {
 	for (unsigned int i = 0; i <= TS_N; i++) {
 		reach[i] = false;
 		count_payload[i] = 0;
 	}
-	g_len_ok = g_parent_ok = true;
+	g_len_ok = g_parent_ok = g_side_ok = true;
 	g_stray = false;
+	for (unsigned int i = 0; i <= TS_N; i++)
+		g_depth[i] = 0;
 	if (root) {
 		if (!__CPROVER_same_object(root, g_t)) {
 			g_stray = true;
@@ -86,6 +103,10 @@ static void survey(struct trie_node *root)
 							g_stray = true;
 						} else {
 							reach[c[k] - g_t] = true;
+							g_depth[c[k] - g_t] = g_depth[i] + 1;
+							/* a node hangs on the side its own prefix bit at the parent's level selects */
+							if (pbit(&c[k]->prefix, g_lvl0 + g_depth[i]) != k)
+								g_side_ok = false;
 							if (c[k]->len < g_t[i].len)
 								g_len_ok = false;
 							if (c[k]->parent != &g_t[i])
@@ -108,6 +129,8 @@ void h_shape_remove(void)
 	const bool v6 = VND_BOOL();
 	const unsigned int lvl = VND_U8();
 
+	ASSUME(lvl + TS_DEPTH <= (v6 ? 128u : 32u));
+	g_lvl0 = lvl;
 	mk_tree(v6, lvl);
 	const struct lrtr_ip_addr key = g_t[0].prefix;
 	struct trie_node *r = trie_remove(&g_t[0], &key, g_t[0].len, lvl);
@@ -121,6 +144,7 @@ void h_shape_remove(void)
 	CHECK(!reach[r - g_t], "C02 remove: the node handed back is no longer reachable");
 	CHECK(g_len_ok, "C02 remove: children are still not shorter than their parent, everywhere");
 	CHECK(g_parent_ok, "C02 remove: parent links are consistent");
+	CHECK(g_side_ok, "C01/C02 remove: every node still hangs on the side its own prefix bit selects (covering records stay on the query's path)");
 	for (unsigned int i = 1; i < TS_N; i++)
 		CHECK(count_payload[i] == (g_present[i] ? 1u : 0u), "C02 remove: every other payload is still in the tree exactly once");
 	CHECK(count_payload[0] == 0, "C02 remove: the removed payload is gone");
@@ -141,6 +165,7 @@ void h_shape_insert(void)
 	const unsigned int lvl = VND_U8();
 
 	ASSUME(lvl + TS_DEPTH <= (v6 ? 128u : 32u));
+	g_lvl0 = lvl;
 	mk_tree(v6, lvl);
 	struct trie_node *n = &g_t[TS_N];
 
@@ -157,6 +182,7 @@ void h_shape_insert(void)
 	CHECK(!g_stray, "C02 insert: links stay inside the tree");
 	CHECK(g_len_ok, "C02 insert: children are not shorter than their parent, everywhere (shorter prefixes stay above)");
 	CHECK(g_parent_ok, "C02 insert: parent links are consistent");
+	CHECK(g_side_ok, "C01/C02 insert: every node, also a displaced one, hangs on the side its own prefix bit selects");
 	for (unsigned int i = 0; i <= TS_N; i++)
 		CHECK(count_payload[i] == ((i == TS_N || g_present[i]) ? 1u : 0u), "C02 insert: every old payload and the new one are in the tree exactly once");
 	if (g_t[0].data == &g_payload[TS_N])
